@@ -24,7 +24,7 @@ CFG = {
                   "wrap_is_layout (the SetCell calls are the reading-order layout of the spec, which since the F111 repair starts a new row for a cluster that does not fit in the rest of the row and skips one wider than the window), "
                   "print_order / wrap_order (strictly increasing reading order), layout_one_call_per_cluster, new_region; print_fits / wrap_fits / println_fits / printTruncate_fits (every call has col + width <= window width), "
                   "cluster_extent_clip / text_extent_clip (on a right-nested chain — everything vx.Window() and New build: new_rightNested — every cluster written into the clip region occupies only columns of the clip region: "
-                  "containment at the property's observation point without the F111 exclusion); calls_display_clip / print_display_clip / wrap_display_clip / println_display_clip (Props/C11Display: what the terminal shows after a Render "
+                  "containment at the property's observation point without the F111 exclusion); calls_display_clip with instances for SetCell, Fill, Print, PrintTruncate, Println, Wrap (Props/C11Display: what the terminal shows after a Render "
                   "— expectedC of the buffer — at every screen cell outside the clip region is the same before and after the call, given that no glyph of the row left of the clip region's right edge reached it before, a state the call re-establishes); composed with the C01 renderer and the "
                   "reference terminal: app_history_displays, app_screen_is_last_write (Props/C01App: what the terminal shows after a Render is "
                   "the fold of the Spec.Window writes that hit each cell); showCursor_position / showCursor_in_screen (Window.ShowCursor = origin + "
